@@ -247,6 +247,10 @@ func newWorld(keyed bool) *World {
 	w.OK = *a.OracleKeeper
 	w.SMS = skeeper.NewMsgServerImpl(w.SK)
 	w.OMS = okeeper.NewMsgServerImpl(w.OK)
+	// on a chain, the oracle's and the fee collector's module accounts exist by the time a tenant does (creating one pays a fee, part
+	// of which goes there); the keeper-level engine creates tenants without a fee, so it creates the accounts here
+	a.AccountKeeper.GetModuleAccount(ctx, otypes.ModuleName)
+	a.AccountKeeper.GetModuleAccount(ctx, authtypes.FeeCollectorName)
 	vals := a.StakingKeeper.GetAllValidators(ctx)
 	for _, v := range vals {
 		w.Vals = append(w.Vals, v.GetOperator())
